@@ -172,6 +172,39 @@ MUTANTS = [
         "        self.sink.write(buf)\n    }", "        self.sink.write(buf)?;\n        Ok(buf.len())\n    }")]),
 ]
 
+
+MUTANTS += [
+    dict(id="M04", props=["C13"], what="CallFunction arm iterates arguments reversed", edits=[(C,
+        "                let index = program.constant_pool.register(ProgramObject::String(name.to_string()));\n                for argument in arguments.iter() {",
+        "                let index = program.constant_pool.register(ProgramObject::String(name.to_string()));\n                for argument in arguments.iter().rev() {")]),
+    dict(id="M80", props=["C13"], what="AssignField compiles value before object", edits=[(C,
+        "                object.deref().compile_into(program, active_buffer, global_environment, current_frame, true)?;\n                value.deref().compile_into(program, active_buffer, global_environment, current_frame, true)?;\n                let index = program.constant_pool.register(ProgramObject::from_str(name));\n                active_buffer.emit(OpCode::SetField",
+        "                value.deref().compile_into(program, active_buffer, global_environment, current_frame, true)?;\n                object.deref().compile_into(program, active_buffer, global_environment, current_frame, true)?;\n                let index = program.constant_pool.register(ProgramObject::from_str(name));\n                active_buffer.emit(OpCode::SetField")]),
+    dict(id="MA1", props=["C13", "C02"], what="Loop arm omits the initial Jump to the condition", edits=[(C,
+        "                active_buffer.emit(OpCode::Jump { label: condition_label_index });\n", "")]),
+    dict(id="M02", props=["C02", "C13"], what="Loop arm compiles the body with keep_result", edits=[(C,
+        "(**body).compile_into(program, active_buffer, global_environment, current_frame, false)?;",
+        "(**body).compile_into(program, active_buffer, global_environment, current_frame, keep_result)?;")]),
+    dict(id="M36", props=["C02"], what="Block keeps every child when keep_result", edits=[(C,
+        "current_frame, last && keep_result)?;", "current_frame, keep_result)?;")]),
+    dict(id="M91", props=["C13"], what="Array arm treats CallFunction initialisers as simple", edits=[(C,
+        "AST::AccessVariable { name:_ } => {",
+        "AST::AccessVariable { name:_ } | AST::CallFunction { name:_, arguments:_ } => {")]),
+    dict(id="MK8", props=["C13"], what="K8 reintroduced: AccessField initialisers simple", edits=[(C,
+        "AST::AccessVariable { name:_ } => {",
+        "AST::AccessVariable { name:_ } | AST::AccessField { object:_, field:_ } => {")]),
+    dict(id="M13a", props=["C13"], what="array counter starts at 1", edits=[(C,
+        "i_id.clone(), AST::integer(0));", "i_id.clone(), AST::integer(1));")]),
+    dict(id="M13b", props=["C13"], what="conditional branches swapped (alt on truthy edge)", edits=[
+        (C, "(**alternative).compile_into(program, active_buffer, global_environment, current_frame, keep_result)?;\n                active_buffer.emit(OpCode::Jump { label: end_label_index } );",
+            "(**consequent).compile_into(program, active_buffer, global_environment, current_frame, keep_result)?;\n                active_buffer.emit(OpCode::Jump { label: end_label_index } );"),
+        (C, "                //program.labels.set(consequent_label, program.code.current_address())?;\n                (**consequent).compile_into(",
+            "                //program.labels.set(consequent_label, program.code.current_address())?;\n                (**alternative).compile_into(")]),
+    dict(id="M26", props=["C13"], what="Object arm compiles extends after the members", edits=[
+        (C, "                (**extends).compile_into(program, active_buffer, global_environment, current_frame, true)?;\n\n                let slots: Result<Vec<ConstantPoolIndex>>", "                let slots: Result<Vec<ConstantPoolIndex>>"),
+        (C, "                }).collect();\n\n                let class = ProgramObject::Class(slots?);", "                }).collect();\n                (**extends).compile_into(program, active_buffer, global_environment, current_frame, true)?;\n\n                let class = ProgramObject::Class(slots?);")]),
+]
+
 MUTANTS = [m for m in MUTANTS if m["edits"]]
 
 BENIGN = [
